@@ -330,6 +330,27 @@ pub fn take_pi_log() -> Vec<Sc> {
     PI_LOG.with(|l| std::mem::take(&mut *l.borrow_mut()))
 }
 
+thread_local! {
+    /// Re-wired twin: at op `index` the first operand is replaced by a fresh
+    /// witness holding `value + delta` (every row stays satisfied, one compiled
+    /// copy constraint breaks).
+    static TWIN: std::cell::Cell<Option<(usize, Sc)>> = const { std::cell::Cell::new(None) };
+}
+
+pub fn set_twin(t: Option<(usize, Sc)>) {
+    TWIN.with(|x| x.set(t));
+}
+
+/// Indices of the ops whose first operand can be re-wired.
+pub fn twin_sites(prog: &Program) -> Vec<usize> {
+    prog.ops
+        .iter()
+        .enumerate()
+        .filter(|(_, op)| matches!(op, Op::EvalOut { q, .. } if q[3] != Sc::zero()) || matches!(op, Op::GateAdd { .. } | Op::GateMul { .. } | Op::RawArith { .. }))
+        .map(|(i, _)| i)
+        .collect()
+}
+
 struct Cursor<'a> {
     tape: &'a Tape,
     pos: usize,
@@ -378,7 +399,21 @@ pub fn interpret(prog: &Program, tape: &Tape, c: &mut Composer) -> Result<(), Er
             tf[$i % tf.len()]
         };
     }
-    for op in &prog.ops {
+    let twin = TWIN.with(|x| x.get());
+    for (op_idx, op) in prog.ops.iter().enumerate() {
+        // first operand, possibly re-wired to a fresh witness with another value
+        macro_rules! sa {
+            ($i:expr) => {{
+                let w = sr!($i);
+                match twin {
+                    Some((at, delta)) if at == op_idx => {
+                        let v = c[w] + delta;
+                        c.append_witness(v)
+                    }
+                    _ => w,
+                }
+            }};
+        }
         match op {
             Op::Input(_) => {
                 let v = cur.scalar();
@@ -398,7 +433,7 @@ pub fn interpret(prog: &Program, tape: &Tape, c: &mut Composer) -> Result<(), Er
                     .output(q[3])
                     .fourth(q[4])
                     .constant(q[5])
-                    .a(sr!(*a))
+                    .a(sa!(*a))
                     .b(sr!(*b))
                     .d(sr!(*d));
                 if *pi {
@@ -411,7 +446,7 @@ pub fn interpret(prog: &Program, tape: &Tape, c: &mut Composer) -> Result<(), Er
                 }
             }
             Op::GateAdd { l, r, f, c: qc, a, b, d, pi } => {
-                let mut k = Constraint::new().left(*l).right(*r).fourth(*f).constant(*qc).a(sr!(*a)).b(sr!(*b)).d(sr!(*d));
+                let mut k = Constraint::new().left(*l).right(*r).fourth(*f).constant(*qc).a(sa!(*a)).b(sr!(*b)).d(sr!(*d));
                 if *pi {
                     let v = cur.scalar();
                     pi_log(v);
@@ -420,7 +455,7 @@ pub fn interpret(prog: &Program, tape: &Tape, c: &mut Composer) -> Result<(), Er
                 s.push(c.gate_add(k));
             }
             Op::GateMul { m, f, c: qc, a, b, d, pi } => {
-                let mut k = Constraint::new().mult(*m).fourth(*f).constant(*qc).a(sr!(*a)).b(sr!(*b)).d(sr!(*d));
+                let mut k = Constraint::new().mult(*m).fourth(*f).constant(*qc).a(sa!(*a)).b(sr!(*b)).d(sr!(*d));
                 if *pi {
                     let v = cur.scalar();
                     pi_log(v);
@@ -585,7 +620,7 @@ pub fn interpret(prog: &Program, tape: &Tape, c: &mut Composer) -> Result<(), Er
                 }
             }
             Op::RawArith { q, q_arith, a, b, d, pi } => {
-                let (wa, wb, wd) = (sr!(*a), sr!(*b), sr!(*d));
+                let (wa, wb, wd) = (sa!(*a), sr!(*b), sr!(*d));
                 let (va, vb, vd) = (c[wa], c[wb], c[wd]);
                 let piv = if *pi { cur.scalar() } else { Sc::zero() };
                 if *pi {
